@@ -1,0 +1,53 @@
+//! Verification hooks: re-exports of crate-private items for the external verification harness.
+//! Compiled only with `--cfg humphrey_verif`.
+
+#![allow(missing_docs)]
+
+pub use crate::frame::{Frame, Opcode};
+pub use crate::util::base64::{Base64Decode, Base64Encode};
+pub use crate::util::sha1::SHA1Hash;
+
+/// The fields of a frame: (fin, rsv, opcode, mask, length, masking key, payload).
+pub type FrameParts = (bool, [bool; 3], u8, bool, u64, [u8; 4], Vec<u8>);
+
+pub fn frame_parts(frame: &Frame) -> FrameParts {
+    (
+        frame.fin,
+        frame.rsv,
+        frame.opcode as u8,
+        frame.mask,
+        frame.length,
+        frame.masking_key,
+        frame.payload.clone(),
+    )
+}
+
+pub fn frame_from_parts(parts: FrameParts) -> Option<Frame> {
+    use std::convert::TryFrom;
+
+    Some(Frame {
+        fin: parts.0,
+        rsv: parts.1,
+        opcode: Opcode::try_from(parts.2).ok()?,
+        mask: parts.3,
+        length: parts.4,
+        masking_key: parts.5,
+        payload: parts.6,
+    })
+}
+
+pub fn opcode_from_u8(value: u8) -> Option<u8> {
+    use std::convert::TryFrom;
+
+    Opcode::try_from(value).ok().map(|opcode| opcode as u8)
+}
+
+pub fn frame_from_stream<T: std::io::Read>(stream: T) -> Result<Frame, crate::error::WebsocketError> {
+    Frame::from_stream(stream)
+}
+
+pub fn frame_from_stream_nonblocking(
+    stream: &mut humphrey::stream::Stream,
+) -> crate::restion::Restion<Frame, crate::error::WebsocketError> {
+    Frame::from_stream_nonblocking(stream)
+}
